@@ -120,6 +120,10 @@ func (c05) Run(c *Case, st *Stats) []Violation {
 		m := min(len(want), len(acts))
 		for i := 0; i < m; i++ {
 			if acts[i] != want[i] {
+				if c.Entity == "decorator.NoLoss" || c.Entity == "decorator.StopLoss" {
+					add("decorator-differs-from-model", fmt.Sprintf("action %d is %d; the wrapped strategy's actions and the closings up to snapshot %d give %d", i, acts[i], i, want[i]))
+					break
+				}
 				add("compound-differs-from-members", fmt.Sprintf("action %d is %d, the members' recommendations for snapshot %d combine to %d", i, acts[i], i, want[i]))
 				break
 			}
@@ -145,7 +149,7 @@ func (c05) Run(c *Case, st *Stats) []Violation {
 // (fresh instance, canonical schedule) and combines the action lists by the combinator's rule.
 func combineMembers(c *Case, st *Stats) ([]strategy.Action, bool) {
 	switch c.Entity {
-	case "strategy.And", "strategy.Or", "strategy.Majority", "strategy.Split", "decorator.Inverse", "registry.And", "registry.Split":
+	case "strategy.And", "strategy.Or", "strategy.Majority", "strategy.Split", "decorator.Inverse", "registry.And", "registry.Split", "decorator.NoLoss", "decorator.StopLoss":
 	default:
 		return nil, false
 	}
@@ -188,6 +192,49 @@ func combineMembers(c *Case, st *Stats) ([]strategy.Action, bool) {
 	}
 	if m < 0 {
 		return nil, false
+	}
+	if entity == "decorator.NoLoss" || entity == "decorator.StopLoss" {
+		// the decorators follow the wrapped strategy's action i and the closing of snapshot i: buy
+		// when it says Buy and nothing is held; No-Loss sells on its Sell only above the purchase
+		// price, Stop-Loss on its Sell or once the closing is at or below (1 - percentage) x the
+		// purchase price. Where the documentation and a plain reading part (a purchase at a
+		// closing of 0, a sale at exactly the purchase price) the comparison ends.
+		closings := column(genSnapshots(c.Lens[0], c.Shape, c.DataSeed, epoch), 'c')
+		m = min(m, len(closings))
+		out := make([]strategy.Action, 0, m)
+		held, price := false, 0.0
+		pct := c.pct()
+		if c.Variant > 0 {
+			pct *= variantFactor[c.Variant%len(variantFactor)] // the variant scales every float parameter, the percentage included
+		}
+		for i := 0; i < m; i++ {
+			a, cl := lists[0][i], closings[i]
+			act := strategy.Hold
+			switch {
+			case a == strategy.Buy && !held:
+				if cl == 0 || cl != cl {
+					return out, true
+				}
+				held, price, act = true, cl, strategy.Buy
+			case held && entity == "decorator.NoLoss" && a == strategy.Sell:
+				if cl == price || cl != cl {
+					return out, true
+				}
+				if cl > price {
+					held, act = false, strategy.Sell
+				}
+			case held && entity == "decorator.StopLoss":
+				stop := price * (1 - pct)
+				if cl != cl || stop != stop {
+					return out, true
+				}
+				if a == strategy.Sell || cl <= stop {
+					held, act = false, strategy.Sell
+				}
+			}
+			out = append(out, act)
+		}
+		return out, true
 	}
 	out := make([]strategy.Action, m)
 	for i := 0; i < m; i++ {
